@@ -60,7 +60,9 @@ def gen_pool_calls(R, names, off, n_random, pool=POOL, pairs=True):
 C15_NAMES = ["length", "at", "copy", "insert", "find", "count", "contains", "replace", "remove", "reverse", "unique", "all", "any", "split", "split_csv", "trim", "trim_left", "trim_right",
              "lowercase", "uppercase", "same_text"]
 C15_STRS = ["", "a", "ab", "abc", "abcabc", "aaa", "aaaa", "äb", "bä", "äbä", "日本語", "😀a", "a😀b", "é", "ée", "  x y  ", "\t\n x ", " x　", "a;b;\"c;d\";e", "a,b,,c", "\"", "x;\"y", "AbC",
-            "ß", "İ", "ǅ", "ὈΔΥΣΣΕΎΣ", "Σ", "aΣ", "ΑΣ ", "ﬁ", "ŉ", "ÄRGER", "École", "привет", "ÑandÚ", "Straße", "ΣΊΣΥΦΟΣ"]
+            "ß", "İ", "ǅ", "ὈΔΥΣΣΕΎΣ", "Σ", "aΣ", "ΑΣ ", "ﬁ", "ŉ", "ÄRGER", "École", "привет", "ÑandÚ", "Straße", "ΣΊΣΥΦΟΣ",
+            # the final-sigma rule: cased / case-ignorable neighbours (full stop, apostrophe, soft hyphen, combining accent, modifier letter), digits, doubled and isolated sigmas
+            "ΑΣ.", "ΑΣ'Β", "ΑΣ\u0301", "ΑΣ\u0301Α", "A\u00adΣ", "1Σ", "ΑΣ1", "ΑΣΣ", "Σ Σ", "ʰΣ", "ΑʰΣʰ", "ΑΣ.Α", "Α.Σ", "'Σ'", "ǅΣ", "ΣΑ", "aΣb", "aΣ-"]
 C15_ARRS = [arr(), arr(num(1.0)), arr(num(1.0), s("1"), b(True)), arr(num(3.0), num(1.0), num(2.0), num(1.0)), arr(s("b"), s("a"), s("b")), arr(arr(num(1.0)), arr(), arr(num(1.0))),
             arr(b(True), b(True), b(False)), arr(s("x"), arr(s("x")), num(0.0), num(-0.0)),
             # members whose `=` is not transitive (true = 1 = '1' but true <> '1'): what counts is equality with the members KEPT so far, in this order
